@@ -9,7 +9,7 @@ use umya_verif::props::c09::{fuzz_one, Case, Path};
 const FUNCS: &[&str] = &["SUM", "IF", "INDEX", "OFFSET", "LOG10", "_xlfn.XLOOKUP", "TEXT", "N"];
 const OPS: &[&str] = &["+", "-", "*", "/", "^", "&", "=", "<", ">", "<=", ">=", "<>"];
 const SHEETS: &[&str] = &["Data", "My Sheet", "It's", "a!b", "2024", "A1", "x\"y", "日本"];
-const NAMES: &[&str] = &["Q1.Sales", "A1_total", "rate", "MyName", "TAX2024RATE", "_xlnm.Print_Area", "my.name", "RATE", "税率"];
+const NAMES: &[&str] = &["CO2E", "Mass2.5E", "co2e", "Q1.Sales", "A1_total", "rate", "MyName", "TAX2024RATE", "_xlnm.Print_Area", "my.name", "RATE", "税率"];
 const STRS: &[&str] = &["", "a", "a\"b", "\"", "it's", "x,y", "#REF!", "'S'!A1", "{1}", "[x]", " "];
 const NUMS: &[&str] = &["0", "1", "42", "1.5", ".5", "1E5", "1.5E+10", "2E-3"];
 const SPECS: &[&str] = &["[Col]", "[#All]", "[[#This Row],[Col]]", "[@Col]", "[[A]:[B]]"];
